@@ -563,7 +563,8 @@ impl Deb822 {
     /// assert_eq!(d.to_string(), "");
     /// ```
     pub fn remove_paragraph(&mut self, index: usize) {
-        if let Some(index) = self.convert_index(index) {
+        if let Some(paragraph) = self.paragraphs().nth(index) {
+            let index = paragraph.0.index();
             self.0.splice_children(index..index + 1, []);
             self.delete_trailing_space(index);
         }
